@@ -203,7 +203,7 @@ def malformed_inputs(ctx, scale, rng):
     leg, _, gapbad = gap_index_cases(ctx, scale, 40 if ctx.quick else 400)
     base += gen + gen2 + leg[:20]
     n = (6000 if ctx.quick else 300000) * scale
-    files = vlib.verif_corpus() + gapbad + structure_cases()
+    files = vlib.verif_corpus() + vlib.verif_corpus_wf() + gapbad + structure_cases()
     files += vlib.sample_mutants(base, rng, n)
     files += vlib.noise_cases(base, rng, n // 6)
     # byte changes deep inside compressed payloads (cels, tilemaps, tilesets): corrupt deflate data
